@@ -11,6 +11,8 @@ Record case := mkCase {
   c_now : N;
   c_opsA : list (C02.op * result);         (* histories that build the two states *)
   c_opsB : list (C02.op * result);
+  c_foreignA : list entry;                 (* entries of other documents held in the same store *)
+  c_foreignB : list entry;
   c_A0 : list entry;                       (* contents before the session (implementation) *)
   c_B0 : list entry;
   c_init : message;                        (* A's initial message *)
@@ -49,6 +51,8 @@ Definition check (c : case) : N :=
   let ns := c_nsid c in
   let '(okA, TA) := C02.run_fs ns empty_tables (c_opsA c) in
   let '(okB, TB) := C02.run_fs ns empty_tables (c_opsB c) in
+  let TA := fold_left (fun T e => fst (fs_put KS EHASH T e)) (c_foreignA c) TA in
+  let TB := fold_left (fun T e => fst (fs_put KS EHASH T e)) (c_foreignB c) TB in
   let fuel := (4 * (length (c_A0 c) + length (c_B0 c)) + 16)%nat in
   let init := initial_message (fs_ops KS EHASH ns) TA in
   let m1 :=
